@@ -111,7 +111,8 @@ prop("C14", "c14",
      "a request failing the rule's own conditions in front of a less specific always-matching rule (effective backtracking). "
      "Non-trivial: a stage is inherited, the rule is expected to be rejected, or backtracking is set without default rule.",
      [dict(run="^TestStagewiseInheritanceExhaustive$", quick=1, thorough=1, shards_thorough=1),
-      dict(run="^TestOrderingsAndMalformedRules$", quick=16000, thorough=600000, shards_thorough=8)],
+      dict(run="^TestOrderingsAndMalformedRules$", quick=16000, thorough=600000, shards_thorough=8),
+      dict(run="^TestConcurrentRequestsRunTheirOwnEffectivePipeline$", quick=1, thorough=1, shards_thorough=2, race=True)],
      ["rule sets whose execute list is empty are rejected by rule-set validation before the factory and are not generated"],
      level="Complete enumeration of the stage-inheritance configuration space plus randomised search over orderings and "
            "malformed references, observed behaviourally through the trace of executed probe mechanisms on the assembled service.",
@@ -452,45 +453,45 @@ ADDED = {
     "C02": "Also: literal segments which are nothing but an escaped character (\\:, \\*, **, :*), literal backslash segments (tree level), a bare * as free "
            "wildcard; rules with scheme, host and methods conditions at once and path_params per route; a third repository which arrives at every rule set "
            "through an update; rules of one rule set sharing an expression with different backtracking settings (then repositories are only compared with "
-           "each other); a refused rule set before the lookups. Wildcard values holding an encoded percent sign, with path_params conditions on the decoded value.",
+           "each other); a refused rule set before the lookups. Wildcard values holding an encoded percent sign, with path_params conditions on the decoded value. Encoded slashes inside of wildcard values (every rule lets them pass).",
     "C03": "Also: method lists which leave no method (must be refused or match nothing), sub-delims and marker-like texts as segments, encoded slashes in "
            "both hex cases within one value, the bare * wildcard (not exposed).",
     "C04": "Also: jwt / oauth2_introspection authenticators with an issuer-templated metadata endpoint, tokens without issuer or key id, credentials with white "
-           "space inside, algorithm confusion tokens, the scheme in other cases. Bearer tokens travelling as query parameter (also with the name of the parameter spelled with an escape sequence) and as body parameter. Bodies with GET and JSON bodies as carriers of a token.",
+           "space inside, algorithm confusion tokens, the scheme in other cases. Bearer tokens travelling as query parameter (also with the name of the parameter spelled with an escape sequence) and as body parameter. Bodies with GET and JSON bodies as carriers of a token. An identity endpoint which refuses the session with 400, 403, 404 or 422.",
     "C05": "Also: scope matching strategies with near-miss scopes, issuer-templated key set endpoints, issuers which read almost like a trusted one, nbf / "
            "iat / exp beyond what 64 bit seconds or time.Time represent; the reference verifies over the canonical encoding of header and payload. NumericDates spelled with fraction and exponent.",
     "C02": "Also: the second repository may have been in use and emptied before the rule sets arrive.",
-    "C07": "Also: versions reported as update although nothing of the source is loaded.",
+    "C07": "Also: versions reported as update although nothing of the source is loaded. Versions whose first rule claims the shared expression while later rules are unproblematic.",
     "C06": "Also: a concurrent unit - the histories of three sources with disjoint expressions applied at the same time must end like a fresh load.",
     "C08": "Also: combined escapes, characters Go re-escapes ({ | ^) and raw bytes beyond ASCII, mixed settings with path_params, a second encoded slash in "
            "the other hex case. Rules which rewrite what is forwarded (scheme only, added path prefix), encoded slash at the very end of the path. Encoded percent signs in front of hex digits. Rules which strip a path prefix (the stripped and the unstripped path are both admitted, the encoded slash has to stay).",
     "C09": "Also: extension methods, request-target forms of X-Forwarded-Uri, scoped IPv6 peers with link-local trusted entries, Forwarded elements without "
-           "for / with For / on two lines, an empty first header line, a Host header with ; , = (nothing but the peer may be named as client address upstream). The same address twice in a row in the chain of hops, and as last hop the peer itself. Relatives of the forwarded headers which heimdall does not document (X-Forwarded-Scheme, X-Real-Ip, X-Original-Url, ...) change nothing for anybody. Commas in X-Forwarded-Uri.",
+           "for / with For / on two lines, an empty first header line, a Host header with ; , = (nothing but the peer may be named as client address upstream). The same address twice in a row in the chain of hops, and as last hop the peer itself. Relatives of the forwarded headers which heimdall does not document (X-Forwarded-Scheme, X-Real-Ip, X-Original-Url, ...) change nothing for anybody. Commas in X-Forwarded-Uri. Hosts with the default port of some scheme.",
     "C10": "Also: rule-level TTLs across rules (what a rule takes from the cache is not older than its own TTL), token lifetimes of zero and less, invalid "
-           "Expires values, custom claims naming exp. The default lifetime of an endpoint's HTTP cache across two catalogue mechanisms calling the same url. Cache-Control directives on several header lines, Last-Modified next to explicit lifetimes, Age values up to beyond what a duration holds. Sessions of the generic authenticator which ended at, just before or just after the start of the epoch.",
+           "Expires values, custom claims naming exp. The default lifetime of an endpoint's HTTP cache across two catalogue mechanisms calling the same url. Cache-Control directives on several header lines, Last-Modified next to explicit lifetimes, Age values up to beyond what a duration holds. Sessions of the generic authenticator which ended at, just before or just after the start of the epoch. A sequence over time on the recording cache's clock: a hit within the lifetime, then a request after the lifetime counted from the first store has to reach the remote side.",
     "C11": "Also: the endpoint-level HTTP cache (POST, and GET with Vary), name lists shifted against the payload, overridden names of forwarded headers / "
            "cookies, outputs of earlier steps in endpoint templates and in jwt claims (token reuse), a second catalogue entry validating the session lifetime, a key "
-           "store replaced under the same key id between the executions, jwt authenticators with different trust stores. Two catalogue entries whose endpoint settings are shifted across a boundary (header name/value, basic auth user/password, api key name/value), a second generic authenticator sending another payload, answers in YAML with expressions calculating with a number, subjects with the same id whose attributes differ in the ends of nested elements or the type of a value. Vary on several header lines with Authorization first; url and Authorization header of an endpoint shifted across their boundary with only the HTTP cache in use. Values rendered from request bytes which are no valid UTF-8; one jwt authenticator for two issuers told apart by a rendered endpoint header.",
+           "store replaced under the same key id between the executions, jwt authenticators with different trust stores. Two catalogue entries whose endpoint settings are shifted across a boundary (header name/value, basic auth user/password, api key name/value), a second generic authenticator sending another payload, answers in YAML with expressions calculating with a number, subjects with the same id whose attributes differ in the ends of nested elements or the type of a value. Vary on several header lines with Authorization first; url and Authorization header of an endpoint shifted across their boundary with only the HTTP cache in use. Values rendered from request bytes which are no valid UTF-8; one jwt authenticator for two issuers told apart by a rendered endpoint header. A second introspection authenticator asking the same endpoint for another realm (header named in lower case).",
     "C12": "Also: panicking mechanisms, more foreign causes (context.Canceled, url.Error wrapping it, net / os errors, JSON syntax error, gRPC status). Chains of three with a nested chain (with and without context) in the middle and the kind at the end. Relative references as redirect targets.",
     "C13": "Also: the check request as Envoy's API describes it (request target incl. query as path, pseudo headers), the decision service asked the way a gateway "
            "does (X-Forwarded-* from a trusted proxy), extension methods, chunked bodies, duplicate / quoted cookies, content type spellings, raw path and URL "
            "string and Host header in the view, empty-valued and odd pipeline headers / cookies, characters not valid in an escaped path. Queries holding a question mark, a slash, semicolons, empty members.",
     "C01": "Also: steps failing with an abandoned or timed out call as cause (context.Canceled / DeadlineExceeded inside and outside of a heimdall error). "
            "A concurrent unit under the race detector: requests for which the condition of a denying step holds and requests for which it does not run through "
-           "the same rules from 12 goroutines on every entry point; none of the former is answered positively.",
+           "the same rules from 12 goroutines on every entry point; none of the former is answered positively. Pipelines put together stage by stage from a rule and the default rule.",
     "C17": "Also: a unit in which later pipeline steps change the subject they were given (dict functions of the template engine): subjects created afterwards by "
-           "the catalogue entry, its variants and other authenticators are those of a world in which nobody did. Pairs of overrides which read the same once quotes and the ends of elements are dropped.",
-    "C14": "Also: generated on_error pipelines with repeated handlers and overrides, overrides which are not a mapping. A rule for a deeper path loaded before the rule under test. The rule set arriving as an update of a version which differs in the rule's on_error list only.",
+           "the catalogue entry, its variants and other authenticators are those of a world in which nobody did. Pairs of overrides which read the same once quotes and the ends of elements are dropped. Executions which fail for lack of credentials in the race unit; an expression using networks() with an argument which changes from request to request, asked from 8 goroutines.",
+    "C14": "Also: generated on_error pipelines with repeated handlers and overrides, overrides which are not a mapping. A rule for a deeper path loaded before the rule under test. The rule set arriving as an update of a version which differs in the rule's on_error list only. A concurrent unit under the race detector: rules inheriting an authorization stage of 1 to 7 steps with finalizers of their own, asked from 9 goroutines.",
     "C15": "Also: allow_encoded_slashes on (listed finding), add_path_prefix with characters not valid in a path, extension and mixed-case methods, IPv6 peers in "
            "Forwarded (RFC 7239 form), unparsable queries, an empty pipeline header. A path which is nothing but the stripped prefix, X-Forwarded-Host / -Proto produced by the pipeline against the same headers of a trusted client. A Forwarded header on two lines.",
-    "C16": "Also: every signer of a multi-signer setup, tokens handed out after reloads, a token cache with a rule using the finalizer as in the catalogue, empty subject ids. A certificate of the active key which runs out while heimdall serves requests (unit with real waiting). Signer names with white space; a unit with two signers whose key id, algorithm and name read alike when written one after another (token cache in use).",
+    "C16": "Also: every signer of a multi-signer setup, tokens handed out after reloads, a token cache with a rule using the finalizer as in the catalogue, empty subject ids. A certificate of the active key which runs out while heimdall serves requests (unit with real waiting). Signer names with white space; a unit with two signers whose key id, algorithm and name read alike when written one after another (token cache in use). The scheduled unit also runs with a token cache and asks for one more token after the threads are done.",
     "C18": "Also: the real inotify watcher following one file (rewrites, atomic replacements, ConfigMap layout, removal and re-creation), an S3 compatible server for "
            "the documented single-object URL, an object replaced between the requests of one poll, content type spellings, empty content as line break / comments, "
            "Kubernetes tombstones / status values / re-created objects, per-object independence in buckets. Endpoint urls which are not in the spelling a url library writes them (non-ASCII, braces, lower-case escapes). A ConfigMap link replaced in two steps (removed, then created again).",
     "C19": "Also: rule sets with references to the environment (shell parameter expansion forms), a rule set file vanishing while it is read (named pipe), malformed "
            "objects of a bucket, key stores with usable keys followed by an unusable one, P-521 keys, encrypted keys with DER-aware edits, cyclic issuers, the token "
-           "issued after a reload attempt must verify with the published key set, which is unchanged after a refused reload; native fuzz targets. The credentials file of the redis cache reloaded with truncated, null-document and hostile contents. Entries of the watched directory which cannot be stat'ed or read (links in cycles, through regular files, to over-long names, directories, unreadable files).",
-    "C20": "Also: relative redirect targets, YAML-lookalike strings, a conflicting assignment by a variable which is set and empty. List indices written with leading zeros. Prefixes of the variables in lower or mixed case and without trailing separator. Endpoints in their short form (a string), and the conflict short form in the file against members in the environment.",
+           "issued after a reload attempt must verify with the published key set, which is unchanged after a refused reload; native fuzz targets. The credentials file of the redis cache reloaded with truncated, null-document and hostile contents. Entries of the watched directory which cannot be stat'ed or read (links in cycles, through regular files, to over-long names, directories, unreadable files). RSA keys of sizes nobody planned for (generated).",
+    "C20": "Also: relative redirect targets, YAML-lookalike strings, a conflicting assignment by a variable which is set and empty. List indices written with leading zeros. Prefixes of the variables in lower or mixed case and without trailing separator. Endpoints in their short form (a string), and the conflict short form in the file against members in the environment. A cache section; after the loads of a case a configuration defining nothing still consists of the defaults written down at the start of the process.",
 }
 
 for _pid, _txt in ADDED.items():
